@@ -1099,6 +1099,130 @@ def neutral(repo, out):
             out.unsure(cf, cf.node, '_chk_scale_factor shape not recognised')
 
 
+# --------------------------------------------------------------------------- cached adjoint solutions
+CACHE_FILES = ['openmdao/solvers/linear/direct.py', 'openmdao/solvers/linear/scipy_iter_solver.py',
+               'openmdao/solvers/linear/petsc_direct_solver.py', 'openmdao/solvers/linear/petsc_ksp.py']
+
+
+def _lex_state(fs, st):
+    """'phys' inside an _unscaled_context that lists both an output- and a residual-kind vector, 'scaled'
+    outside every such context, None when only one kind is listed (a linear solve needs both)."""
+    for w, listed in fs.ctxs:
+        if astx.in_body(st, w, 'body'):
+            return 'phys' if set(listed.values()) >= {'outputs', 'residuals'} else None
+    return 'scaled'
+
+
+def _is_view_expr(e):
+    """True for `V`, `V.asarray()`, `V._get_data()`, `V.asarray(copy=False)`: aliases the vector's storage."""
+    if isinstance(e, (ast.Name, ast.Attribute)):
+        return True
+    if isinstance(e, ast.Call) and astx.callee_attr(e) in ('asarray', '_get_data', '_abs_get_val'):
+        c = astx.kwarg(e, 'copy') if astx.kwarg(e, 'copy') is not None else (e.args[0] if e.args else None)
+        return c is None or (isinstance(c, ast.Constant) and not c.value)
+    return False
+
+
+def _capture_states(fs, call_st, e, depth=0):
+    """Set of lexical states in which the array expression e (an argument at call_st) got its contents."""
+    if not isinstance(e, ast.Name):
+        return {_lex_state(fs, call_st)} if _is_view_expr(e) else {None}
+    at = fs.g.nodes_of(call_st)[0]
+    out = set()
+    for d in fs.rd.defs(at, e.id):
+        if d is fs.g.entry or d.kind != 'stmt' or depth > 4:
+            out.add(None)
+            continue
+        a = d.ast
+        val = None
+        if isinstance(a, ast.Assign):
+            val = a.value
+        if val is None:
+            out.add(None)
+        elif isinstance(val, ast.Name):
+            out |= _capture_states(fs, call_st, val, depth + 1) if _is_vector_view_local(fs, d, val) \
+                else _capture_states(fs, a, val, depth + 1)
+        elif _is_view_expr(val):
+            out.add(_lex_state(fs, call_st))      # a view follows the vector: state at the use
+        else:
+            out.add(_lex_state(fs, a))            # computed / copied here: state at the definition
+    return out
+
+
+def _is_vector_view_local(fs, at, name_node):
+    """True if the local is bound (on every reaching definition) to a view of a vector."""
+    ds = fs.rd.defs(at, name_node.id)
+    return bool(ds) and all(d is not fs.g.entry and d.kind == 'stmt' and isinstance(d.ast, ast.Assign) and
+                            _is_view_expr(d.ast.value) and not isinstance(d.ast.value, ast.Name) for d in ds)
+
+
+@rule('C08.cache', floor=3)
+def cache(repo, out):
+    """A cached adjoint solution is stored and replayed in one scaling state.
+
+    LinearRHSChecker.get_solution(b) compares b with the cached right-hand sides and its result is written
+    into the solution vector; add_solution(rhs, sol) must therefore receive rhs in the state get_solution's
+    argument is in, and sol in the state the replayed solution is written back in."""
+    n = 0
+    for rel in CACHE_FILES:
+        if not repo.exists(rel):
+            continue
+        m = repo.module(rel)
+        for f in m.funcs.values():
+            adds = [c for c in astx.calls(f.node) if astx.callee_attr(c) == 'add_solution']
+            gets = [c for c in astx.calls(f.node) if astx.callee_attr(c) == 'get_solution']
+            if not adds and not gets:
+                continue
+            fs = FnState(repo, f)
+            n += 1
+            replay = set()
+            for g_ in gets:
+                st = astx.stmt_of(g_)
+                s_get = _lex_state(fs, st)
+                replay.add(s_get)
+                tgt = st.targets[0] if isinstance(st, ast.Assign) else None
+                sol = tgt.elts[0].id if isinstance(tgt, ast.Tuple) and isinstance(tgt.elts[0], ast.Name) else \
+                    (tgt.id if isinstance(tgt, ast.Name) else None)
+                if sol is None:
+                    out.unsure(f, st, 'result of get_solution is not bound to a local')
+                    continue
+                uses = [u for u in astx.walk_stmts(f.node.body)
+                        if u is not st and not isinstance(u, (ast.If, ast.For, ast.While, ast.With, ast.Try))
+                        and any(isinstance(x, ast.Name) and x.id == sol and isinstance(x.ctx, ast.Load)
+                                for x in astx.walk(u))
+                        and fs.g.nodes_of(u) and any(d.kind == 'stmt' and d.ast is st
+                                                     for d in fs.rd.defs(fs.g.nodes_of(u)[0], sol))]
+                for u in uses:
+                    if _lex_state(fs, u) != s_get:
+                        out.bad(f, u, f'the replayed solution is written back in the {_lex_state(fs, u)} state but '
+                                f'the right-hand side was matched in the {s_get} state', key='cache-replay')
+                if uses:
+                    out.ok(f, st, f'replay in the {s_get} state ({len(uses)} use(s))')
+            for a in adds:
+                st = astx.stmt_of(a)
+                if len(a.args) < 2:
+                    out.unsure(f, st, 'add_solution call shape not recognised')
+                    continue
+                s_rhs = _capture_states(fs, st, a.args[0])
+                s_sol = _capture_states(fs, st, a.args[1])
+                if None in s_rhs or None in s_sol:
+                    out.unsure(f, st, f'cannot resolve where {astx.src(a.args[0])} / {astx.src(a.args[1])} were captured')
+                    continue
+                want = replay or s_rhs
+                if len(s_rhs) != 1 or s_rhs != want:
+                    out.bad(f, st, f'right-hand side is cached in state(s) {sorted(s_rhs)} but matched against in '
+                            f'{sorted(want)}', key='cache-rhs')
+                elif s_sol != s_rhs:
+                    out.bad(f, st, f'the cached solution {astx.src(a.args[1])} is captured in state(s) {sorted(s_sol)} '
+                            f'while its right-hand side and the replay are in the {sorted(s_rhs)[0]} state: a cache '
+                            'hit writes a physical solution into scaled vectors (wrong by ref/res_ref)',
+                            key='cache-state')
+                else:
+                    out.ok(f, st, f'rhs and solution cached in the {sorted(s_rhs)[0]} state')
+    if n < 2:
+        raise AnalysisError('LinearRHSChecker users not found')
+
+
 WHO = {
     ('openmdao/core/system.py', 'System._unscaled_context'): 'the unscaled context',
     ('openmdao/core/system.py', 'System._scaled_context_all'): 'the scaled context',
